@@ -14,9 +14,11 @@
      reach inp p q               q is reached from p by parent / hardlink-target steps
      absent inp l                the listed path l is not the root and has no entry
      dangling inp                some hardlink of the layer names a target without entry
+     dangling_from inp p         ... and that hardlink is reached from p by parent / hardlink-target steps
+     W / WP / LO                 C03's writer-builder model, its proofs, Proofs/LandmarkOffsets.v (see the last theorem)
      groups inp out prio gs ms   [prio] is served, in order, by the consecutive groups [gs]; [ms] = reported missed *)
-From Coq Require Import List Arith Bool String Permutation.
-From SV Require Import Model.Sort Proofs.Sort.
+From Coq Require Import List Arith NArith ZArith Bool String Permutation.
+From SV Require Import Model.Sort Proofs.Sort Proofs.SortWriter.
 Import ListNotations.
 
 (* Layout: on success the output is G ++ [landmark] ++ R; the landmark is the prefetch landmark iff the list is
@@ -114,13 +116,14 @@ Qed.
 Print Assumptions C14_group_exact.
 
 (* Missing paths: a listed path without entry (in any spelling; the root is never missing) is reported back in
-   allow mode and makes a successful strict build impossible; whatever is reported is a listed path that is
-   absent or (fix-1 keeps this) stumbles on a dangling hardlink; strict mode reports nothing. *)
+   allow mode and makes a successful strict build impossible; whatever is reported is a listed path that has no
+   entry, or from which the parent / hardlink-target steps reach a hardlink whose target has no entry (a name
+   for a file that does not exist, see the note at C14_missed_exactly_absent_refuted); strict mode reports nothing. *)
 Theorem C14_sort_missing :
   forall t prio allow out missed,
     sort_entries t prio allow = SOk out missed ->
     (forall l, In l prio -> absent (import t) l -> allow = true /\ In l missed)
-    /\ (forall l, In l missed -> In l prio /\ (absent (import t) l \/ dangling (import t)))
+    /\ (forall l, In l missed -> In l prio /\ (absent (import t) l \/ dangling_from (import t) (clean l)))
     /\ (allow = false -> missed = []).
 Proof. exact sort_missing. Qed.
 Print Assumptions C14_sort_missing.
@@ -143,7 +146,14 @@ Theorem C14_missed_exactly_absent_partial :
 Proof. exact sort_missed_exact. Qed.
 Print Assumptions C14_missed_exactly_absent_partial.
 
-(* ... and the hypothesis is needed: a listed hardlink that exists but whose target does not is reported missed. *)
+(* ... and the hypothesis is needed: a listed hardlink entry whose target has no entry is reported missed although
+   the hardlink entry itself is in the tar (reproduced on the implementation: corpus case "d/l -> gone").
+   Disposition (phase 2): not counted as a violation of the property. A hardlink is a second name of its target's
+   file; with the target absent the listed path names no file of the layer, it cannot be "preceded by its hardlink
+   target", and reporting it back / aborting is the outcome the property prescribes for "a listed path that does not
+   exist". (Such a tar yields a layer that estargz.Open refuses anyway, with or without a prioritized list.) What is
+   refuted is only the stronger reading "exactly the paths without entry are reported"; C14_sort_missing states the
+   general fact with the reachable dangling hardlink as the second cause. *)
 Theorem C14_missed_exactly_absent_refuted :
   exists t prio out missed,
     sort_entries t prio true = SOk out missed /\ missed <> filter (absentb (import t)) prio.
@@ -159,6 +169,54 @@ Theorem C14_moverec_terminates :
   forall t prio allow, sort_entries t prio allow <> SFuel.
 Proof. exact sort_terminates. Qed.
 Print Assumptions C14_moverec_terminates.
+
+(* The landmark separates the compressed offsets (composition with C03's writer / builder machine
+   Model/EsgzWriter.v, module W; WP = its proofs, LO = Proofs/LandmarkOffsets.v).
+   For every tar, prioritized list and mode for which sortEntries succeeds; for every way [enc] of giving the sorted
+   items a typeflag class, size and header length, provided the landmark item becomes what Build inserts (a one-byte
+   regular file whose name is in needsOpenGzEntries); for every chunk size, min-chunk-size and worker count k
+   (divideEntries, parallel sub-blobs, closeWithCombine); for all compressed member sizes [cs] (each non-empty: a
+   gzip / zstd member has a header) and flush observations [fs] — whenever Build succeeds, its TOC is
+   tg ++ lt :: tr with tg / lt / tr the TOC entries of the leading group / the landmark / the rest (same ids, types,
+   sizes, chunk ranges as the entries: [strip] = [toc_spec]), and
+     - the landmark opens its own compressed stream (innerOffset 0),
+     - every reg / chunk entry with data of a file of the group has Offset < landmark.Offset,
+     - every reg / chunk entry with data of any other file has Offset >= landmark.Offset. *)
+Theorem C14_landmark_separates_offsets :
+  forall t prio allow out missed (enc : item -> W.entry) i chunk minc k cs fs b,
+    sort_entries t prio allow = SOk out missed ->
+    (forall p, LO.landmark_entry (enc (ILand p))) ->
+    LO.pos_all cs ->
+    W.build_blob i (W.MBuild k) chunk minc 0%N (map enc out) cs fs = W.Ok b ->
+    let o := W.mkO chunk minc false in
+    exists tg lt tr,
+      W.b_toc b = tg ++ lt :: tr
+      /\ map WP.strip tg = flat_map (WP.toc_spec o) (map enc (map IEnt (group_of out)))
+      /\ [WP.strip lt] = WP.toc_spec o (enc (ILand (negb (is_nil prio))))
+      /\ map WP.strip tr = flat_map (WP.toc_spec o) (map enc (map IEnt (rest_of out)))
+      /\ W.is_data lt = true /\ W.t_inner lt = 0%N
+      /\ (forall x, In x tg -> W.is_data x = true -> (W.t_off x < W.t_off lt)%N)
+      /\ (forall x, In x tr -> W.is_data x = true -> (W.t_off lt <= W.t_off x)%N).
+Proof. exact sort_build_offsets. Qed.
+Print Assumptions C14_landmark_separates_offsets.
+
+(* Non-vacuity of the offsets theorem: the sorted output of C14_nonvacuous built with chunk size 300,
+   min-chunk-size 1000 (one worker) and with min-chunk-size 0 and 2 workers: Build succeeds; (id, Offset, InnerOffset)
+   of the TOC entries: the landmark (id 0) starts a stream, the rest shares it at inner offsets. *)
+Example C14_offsets_nonvacuous :
+  let out := [IEnt (mkE 3 "x/" None); IEnt (mkE 6 "./c" None); IEnt (mkE 4 "x/l" (Some "./c"%string));
+              IEnt (mkE 1 "a/b" None); ILand true; IEnt (mkE 7 "z" None)] in
+  (forall p, LO.landmark_entry (ex_enc (ILand p))) /\ LO.pos_all (repeat 40%N 30)
+  /\ (exists b, W.build_blob W.null_io (W.MBuild 2%N) 300%Z 1000%Z 0%N (map ex_enc out) (repeat 40%N 30) (repeat 17%N 30) = W.Ok b
+         /\ map (fun t => (W.t_id t, W.t_off t, W.t_inner t)) (skipn 10 (W.b_toc b))
+            = [(0, 40, 0); (7, 40, 1024); (7, 40, 1324); (7, 40, 1624)]%N)
+  /\ (exists b, W.build_blob W.null_io (W.MBuild 2%N) 300%Z 0%Z 0%N (map ex_enc out) (repeat 40%N 30) [] = W.Ok b
+         /\ map (fun t => (W.t_id t, W.t_off t, W.t_inner t)) (skipn 9 (W.b_toc b))
+            = [(1, 400, 0); (0, 440, 0); (7, 480, 0); (7, 520, 0); (7, 560, 0)]%N).
+Proof.
+  cbv zeta. split; [intro p; repeat split|]. split; [repeat constructor|].
+  split; eexists; split; vm_compute; reflexivity.
+Qed.
 
 (* Non-vacuity. Spellings, implicit parent (F23 input), hardlink before its target, repeated name, landmark in
    the input, a missing path: success, with the expected layout. *)
